@@ -296,6 +296,46 @@ def writer_skeleton_clauses(idl, mem):
     o.append("//@   sites ).Write = %d" % len(sk))
     return o
 
+
+def reader_skeleton(idl, mem):
+    """The codec calls of a generated ReadFrom in source order (C04: every member is looked up under its declared tag
+    with its declared require flag; container heads, counts, elements, keys and values under the fixed tags 0/0/0/0/1
+    and always required): two lists, for the Read*/ReadBlock calls [(tag, require) or None] and for the
+    SkipTo/SkipToNoCheck calls [(wire type or None, tag, require)]."""
+    reads, skips = [], []
+    def walk(t, tag, req):
+        if t[0] == "map":
+            skips.append(("MAP", tag, req)); reads.append((0, True))
+            walk(t[1], 0, True); walk(t[2], 1, True)
+        elif t[0] == "vector" and t[1] in (("name", "byte"), ("name", "unsigned byte")):
+            # byte vectors are accepted in both forms: element list, or SimpleList with one payload
+            skips.append((None, tag, req)); reads.append((0, True)); reads.append((0, True))
+            skips.append(("BYTE", 0, True)); reads.append((0, True)); reads.append(None)
+        elif t[0] in ("vector", "array"):
+            skips.append((None, tag, req)); reads.append((0, True))
+            walk(t[1], 0, True)
+        else:
+            reads.append((tag, req))
+    for tag, req, ity, name, dflt in sorted(mem):
+        walk(parse_type(ity), tag, req)
+    return reads, skips
+
+def reader_skeleton_clauses(idl, mem):
+    o = []
+    reads, skips = reader_skeleton(idl, mem)
+    b = lambda x: "true" if x else "false"
+    for k, r in enumerate(reads):
+        if r is not None:
+            o.append("//@   site ).Read#%d assert [C04] $2 == %d && $3 == %s" % (k, r[0], b(r[1])))
+    o.append("//@   sites ).Read = %d" % len(reads))
+    for k, (wt, tag, req) in enumerate(skips):
+        if wt is None:
+            o.append("//@   site ).Skip#%d assert [C04] $1 == %d && $2 == %s" % (k, tag, b(req)))
+        else:
+            o.append("//@   site ).Skip#%d assert [C04] $1 == %d && $2 == %d && $3 == %s" % (k, WIRE[wt], tag, b(req)))
+    o.append("//@   sites ).Skip = %d" % len(skips))
+    return o
+
 def readblock_sites(idl, mem, src):
     """the ReadBlock calls of a generated ReadFrom in source order: (go type, is a map key/value temporary)"""
     out = []
@@ -535,6 +575,7 @@ def gen(pkg):
             o += lc
             if ty in idl:
                 o += fresh_temporary_clauses(idl, idl[ty], src)
+                o += reader_skeleton_clauses(idl, idl[ty])
             o += ["//@   safety [C05]", "//"]
         elif name == "ReadBlock":
             o += ["//@ func (*%s).ReadBlock" % ty,
